@@ -2601,15 +2601,16 @@ fn create_db_base(root: &Path, wal: bool) -> Result<PathBuf, String> {
         for s in DB_SETUP {
             db.execute(s).map_err(|e| format!("{s}: {e}"))?;
         }
-        for i in 0..300 {
+        let (n1, n2, n3) = if wal { (60, 8, 10) } else { (300, 20, 40) };
+        for i in 0..n1 {
             db.execute(&format!("INSERT INTO t1 VALUES ({}, 'name{}', {}.5, {}, x'0102{:02x}', {}, {}.25)", i, i, i, if i % 2 == 0 { "TRUE" } else { "FALSE" }, i % 256, i % 17, i)).map_err(|e| format!("insert t1: {e}"))?;
         }
         let big = "x".repeat(5000);
         db.execute(&format!("INSERT INTO t1 VALUES (1000, '{}', 1.0, TRUE, x'00', 3, 2.0)", big)).map_err(|e| format!("insert toast: {e}"))?;
-        for i in 0..20 {
+        for i in 0..n2 {
             db.execute(&format!("INSERT INTO emb VALUES ({}, 'l{}', '[{}.0,0.5,0.25,{}.0]')", i, i, i, 20 - i)).map_err(|e| format!("insert emb: {e}"))?;
         }
-        for i in 0..40 {
+        for i in 0..n3 {
             db.execute(&format!("INSERT INTO t2 VALUES ('key{:03}', {}, '2024-01-{:02} 10:00:00', '{{\"a\": {}, \"b\": [1,2,3]}}')", i, i, 1 + i % 28, i)).map_err(|e| format!("insert t2: {e}"))?;
         }
         if wal {
@@ -2792,23 +2793,23 @@ struct UnitSpec {
 }
 
 const UNITS: &[UnitSpec] = &[
-    UnitSpec { name: "record", kind: Kind::Mem, quick: 24_000, thorough: 1_200_000, chunk_quick: 6_000, chunk_thorough: 100_000, hang_q: 5, hang_t: 8, raw_pct: 12, page_blobs: false },
-    UnitSpec { name: "jsonb", kind: Kind::Mem, quick: 24_000, thorough: 1_200_000, chunk_quick: 12_000, chunk_thorough: 150_000, hang_q: 5, hang_t: 8, raw_pct: 20, page_blobs: false },
-    UnitSpec { name: "array", kind: Kind::Mem, quick: 20_000, thorough: 1_000_000, chunk_quick: 10_000, chunk_thorough: 250_000, hang_q: 5, hang_t: 8, raw_pct: 20, page_blobs: false },
-    UnitSpec { name: "key", kind: Kind::Mem, quick: 60_000, thorough: 4_000_000, chunk_quick: 30_000, chunk_thorough: 500_000, hang_q: 5, hang_t: 8, raw_pct: 25, page_blobs: false },
-    UnitSpec { name: "varint", kind: Kind::Mem, quick: 40_000, thorough: 2_000_000, chunk_quick: 40_000, chunk_thorough: 1_000_000, hang_q: 5, hang_t: 8, raw_pct: 50, page_blobs: false },
-    UnitSpec { name: "catalog", kind: Kind::Mem, quick: 24_000, thorough: 1_500_000, chunk_quick: 12_000, chunk_thorough: 250_000, hang_q: 5, hang_t: 8, raw_pct: 10, page_blobs: false },
-    UnitSpec { name: "header", kind: Kind::Mem, quick: 24_000, thorough: 1_000_000, chunk_quick: 24_000, chunk_thorough: 500_000, hang_q: 5, hang_t: 8, raw_pct: 5, page_blobs: false },
-    UnitSpec { name: "hnsw", kind: Kind::Mem, quick: 16_000, thorough: 800_000, chunk_quick: 8_000, chunk_thorough: 200_000, hang_q: 5, hang_t: 8, raw_pct: 8, page_blobs: true },
-    UnitSpec { name: "leaf", kind: Kind::Mem, quick: 16_000, thorough: 800_000, chunk_quick: 4_000, chunk_thorough: 100_000, hang_q: 5, hang_t: 8, raw_pct: 8, page_blobs: true },
-    UnitSpec { name: "interior", kind: Kind::Mem, quick: 16_000, thorough: 800_000, chunk_quick: 8_000, chunk_thorough: 200_000, hang_q: 5, hang_t: 8, raw_pct: 8, page_blobs: true },
-    UnitSpec { name: "btree", kind: Kind::Mem, quick: 3_000, thorough: 120_000, chunk_quick: 500, chunk_thorough: 5_000, hang_q: 5, hang_t: 8, raw_pct: 0, page_blobs: true },
-    UnitSpec { name: "catalog_file", kind: Kind::File, quick: 3_000, thorough: 100_000, chunk_quick: 1_000, chunk_thorough: 20_000, hang_q: 6, hang_t: 10, raw_pct: 5, page_blobs: false },
-    UnitSpec { name: "wal_file", kind: Kind::File, quick: 600, thorough: 30_000, chunk_quick: 150, chunk_thorough: 2_500, hang_q: 6, hang_t: 10, raw_pct: 3, page_blobs: false },
-    UnitSpec { name: "btree_file", kind: Kind::File, quick: 1_200, thorough: 60_000, chunk_quick: 150, chunk_thorough: 2_500, hang_q: 6, hang_t: 10, raw_pct: 0, page_blobs: true },
-    UnitSpec { name: "hnsw_file", kind: Kind::File, quick: 1_200, thorough: 60_000, chunk_quick: 300, chunk_thorough: 5_000, hang_q: 6, hang_t: 10, raw_pct: 0, page_blobs: true },
-    UnitSpec { name: "db_nowal", kind: Kind::Db, quick: 900, thorough: 40_000, chunk_quick: 100, chunk_thorough: 1_000, hang_q: 10, hang_t: 20, raw_pct: 0, page_blobs: true },
-    UnitSpec { name: "db_wal", kind: Kind::Db, quick: 600, thorough: 30_000, chunk_quick: 100, chunk_thorough: 1_000, hang_q: 10, hang_t: 20, raw_pct: 0, page_blobs: true },
+    UnitSpec { name: "record", kind: Kind::Mem, quick: 12000, thorough: 240000, chunk_quick: 6000, chunk_thorough: 60000, hang_q: 2, hang_t: 4, raw_pct: 12, page_blobs: false },
+    UnitSpec { name: "jsonb", kind: Kind::Mem, quick: 24000, thorough: 480000, chunk_quick: 12000, chunk_thorough: 120000, hang_q: 2, hang_t: 4, raw_pct: 20, page_blobs: false },
+    UnitSpec { name: "array", kind: Kind::Mem, quick: 20000, thorough: 400000, chunk_quick: 10000, chunk_thorough: 100000, hang_q: 2, hang_t: 4, raw_pct: 20, page_blobs: false },
+    UnitSpec { name: "key", kind: Kind::Mem, quick: 60000, thorough: 1200000, chunk_quick: 30000, chunk_thorough: 300000, hang_q: 2, hang_t: 4, raw_pct: 25, page_blobs: false },
+    UnitSpec { name: "varint", kind: Kind::Mem, quick: 40000, thorough: 800000, chunk_quick: 40000, chunk_thorough: 400000, hang_q: 2, hang_t: 4, raw_pct: 50, page_blobs: false },
+    UnitSpec { name: "catalog", kind: Kind::Mem, quick: 24000, thorough: 480000, chunk_quick: 12000, chunk_thorough: 120000, hang_q: 2, hang_t: 4, raw_pct: 10, page_blobs: false },
+    UnitSpec { name: "header", kind: Kind::Mem, quick: 24000, thorough: 480000, chunk_quick: 24000, chunk_thorough: 240000, hang_q: 2, hang_t: 4, raw_pct: 5, page_blobs: false },
+    UnitSpec { name: "hnsw", kind: Kind::Mem, quick: 16000, thorough: 320000, chunk_quick: 8000, chunk_thorough: 80000, hang_q: 2, hang_t: 4, raw_pct: 8, page_blobs: true },
+    UnitSpec { name: "leaf", kind: Kind::Mem, quick: 8000, thorough: 160000, chunk_quick: 4000, chunk_thorough: 40000, hang_q: 2, hang_t: 4, raw_pct: 8, page_blobs: true },
+    UnitSpec { name: "interior", kind: Kind::Mem, quick: 16000, thorough: 320000, chunk_quick: 8000, chunk_thorough: 80000, hang_q: 2, hang_t: 4, raw_pct: 8, page_blobs: true },
+    UnitSpec { name: "btree", kind: Kind::Mem, quick: 1000, thorough: 20000, chunk_quick: 250, chunk_thorough: 2500, hang_q: 2, hang_t: 4, raw_pct: 0, page_blobs: true },
+    UnitSpec { name: "catalog_file", kind: Kind::File, quick: 1000, thorough: 20000, chunk_quick: 500, chunk_thorough: 5000, hang_q: 2, hang_t: 4, raw_pct: 5, page_blobs: false },
+    UnitSpec { name: "wal_file", kind: Kind::File, quick: 300, thorough: 6000, chunk_quick: 100, chunk_thorough: 1000, hang_q: 2, hang_t: 4, raw_pct: 3, page_blobs: false },
+    UnitSpec { name: "btree_file", kind: Kind::File, quick: 400, thorough: 8000, chunk_quick: 50, chunk_thorough: 500, hang_q: 2, hang_t: 4, raw_pct: 0, page_blobs: true },
+    UnitSpec { name: "hnsw_file", kind: Kind::File, quick: 400, thorough: 8000, chunk_quick: 100, chunk_thorough: 1000, hang_q: 2, hang_t: 4, raw_pct: 0, page_blobs: true },
+    UnitSpec { name: "db_nowal", kind: Kind::Db, quick: 400, thorough: 8000, chunk_quick: 50, chunk_thorough: 500, hang_q: 5, hang_t: 10, raw_pct: 0, page_blobs: true },
+    UnitSpec { name: "db_wal", kind: Kind::Db, quick: 240, thorough: 4800, chunk_quick: 40, chunk_thorough: 400, hang_q: 5, hang_t: 10, raw_pct: 0, page_blobs: true },
 ];
 
 fn unit_spec(name: &str) -> Option<&'static UnitSpec> {
@@ -3016,6 +3017,7 @@ fn run_cases(u: &UnitSpec, env: &Env, start: u64, count: u64, deadline_ms: u64, 
         return 0;
     }
     let mut done = 0u64;
+    let mut last_flush = std::time::Instant::now();
     for idx in start..start + count {
         if deadline_ms > 0 && idx % 16 == 0 && !cfg!(miri) && now_ms() > deadline_ms {
             break;
@@ -3056,7 +3058,8 @@ fn run_cases(u: &UnitSpec, env: &Env, start: u64, count: u64, deadline_ms: u64, 
         if let Some(bb) = &rec.bb {
             bb.finished(done);
         }
-        if done % (if u.kind == Kind::Mem { 512 } else { 32 }) == 0 {
+        if done % 512 == 0 || (done % 4 == 0 && !cfg!(miri) && last_flush.elapsed().as_millis() > 1500) {
+            last_flush = std::time::Instant::now();
             rec.flush_progress();
             if let Some(bb) = &rec.bb {
                 bb.flushed(done);
@@ -3314,6 +3317,20 @@ struct Running {
     dir: PathBuf,
     last: (u64, u64),
     last_change: std::time::Instant,
+    /// CPU seconds the child had consumed when the heartbeat last changed
+    cpu_mark: f64,
+}
+
+/// user+system CPU seconds of a process (all threads)
+#[cfg(not(miri))]
+fn proc_cpu_s(pid: u32) -> Option<f64> {
+    let st = std::fs::read_to_string(format!("/proc/{}/stat", pid)).ok()?;
+    let rest = &st[st.rfind(')')? + 1..];
+    let f: Vec<&str> = rest.split_whitespace().collect();
+    // after the ")" the fields start at #3 (state); utime = #14, stime = #15
+    let ut: f64 = f.get(11)?.parse().ok()?;
+    let stime: f64 = f.get(12)?.parse().ok()?;
+    Some((ut + stime) / 100.0)
 }
 
 fn classify_death(status: &std::process::ExitStatus, stderr: &str) -> String {
@@ -3492,7 +3509,7 @@ fn parent_main(a: &Args) -> i32 {
                 .stderr(Stdio::from(errf))
                 .spawn()
                 .expect("spawn child");
-            running.push(Running { job, child, dir, last: (u64::MAX, u64::MAX), last_change: Instant::now() });
+            running.push(Running { job, child, dir, last: (u64::MAX, u64::MAX), last_change: Instant::now(), cpu_mark: 0.0 });
         }
         if running.is_empty() && (queue.is_empty() || expired) {
             break;
@@ -3508,12 +3525,17 @@ fn parent_main(a: &Args) -> i32 {
                     if cur != running[i].last {
                         running[i].last = cur;
                         running[i].last_change = Instant::now();
+                        running[i].cpu_mark = proc_cpu_s(running[i].child.id()).unwrap_or(0.0);
                     }
                     let lab = bb.as_ref().map(|b| b.3.clone()).unwrap_or_default();
                     // base construction (valid inputs) may legitimately take a while
                     let symbolizing = bb.as_ref().map(|b| b.4).unwrap_or(false);
                     let limit = if lab == "setup" || lab.is_empty() || symbolizing { 90 } else { hang_of(running[i].job.unit) };
-                    if running[i].last_change.elapsed() > Duration::from_secs(limit) {
+                    // a hang = the child burned `limit` CPU seconds inside one call (robust against a loaded
+                    // machine, where wall time says nothing), or sat blocked for a very long wall time
+                    let stalled = running[i].last_change.elapsed();
+                    let burned = if stalled > Duration::from_secs(limit.min(2)) { proc_cpu_s(running[i].child.id()).map(|c| c - running[i].cpu_mark).unwrap_or(f64::MAX) } else { 0.0 };
+                    if burned > limit as f64 || stalled > Duration::from_secs(limit * 12) {
                         let _ = running[i].child.kill();
                         let st = running[i].child.wait().ok();
                         finished = Some((st, true));
@@ -3601,7 +3623,7 @@ fn parent_main(a: &Args) -> i32 {
         }
     }
     ctx.assumptions.push("children run cases on a thread with an 8 MiB stack under RLIMIT_AS = 4 GiB; a stack overflow or allocation failure under these limits is reported as a violation".into());
-    ctx.assumptions.push("a hang is declared when the (case, op) heartbeat of a child does not change for 5/6/10 s (quick: in-memory / file / database level) or 8/10/20 s (thorough)".into());
+    ctx.assumptions.push("a hang is declared when a child consumed that many CPU seconds (wall-time fallback: 12x) without its (case, op) heartbeat changing: 2/2/5 CPU-s (quick: in-memory / file / database level) or 4/4/10 CPU-s (thorough)".into());
     ctx.assumptions.push("overflow-checks are on in this build profile: arithmetic overflow on decoded fields panics here and would wrap in a release build".into());
     ctx.exhaustive = Some(false);
     ctx.sample(json!({"unit": "record", "example_case": describe(unit_spec("record").unwrap(), 1, &mut pbases)}));
